@@ -250,6 +250,15 @@ fn constructors(ctx: &mut Ctx, r: &mut Rng) {
         }
         if let Some(base) = res {
             let ov: Vec<String> = (0..r.usize(4)).map(|i| format!("v{}", i + 1)).collect();
+            // mismatching derivative lengths go through the same fallible path
+            let bad_len = r.usize(4);
+            if let Some(res) = no_panic(ctx, "Dual2::try_new_from(bad lengths)", guarded(|| Dual2::try_new_from(&base, 1.5, ov.clone(), vec![0.5; bad_len], vec![0.25; r.usize(6)]).ok()), || json!({"vars": ov, "dual_len": bad_len})) {
+                if let Some(d) = res {
+                    if let Some(s) = dual2_shape(&d) {
+                        ctx.violation("C20|invariant|Dual2::try_new_from", json!({"what": s}));
+                    }
+                }
+            }
             if let Some(Some(d)) = no_panic(ctx, "Dual2::try_new_from", guarded(|| Dual2::try_new_from(&base, 1.5, ov.clone(), vec![], vec![]).ok()), || json!({"vars": ov})) {
                 if let Some(s) = dual2_shape(&d) {
                     ctx.violation("C20|invariant|Dual2::try_new_from", json!({"what": s}));
@@ -584,6 +593,21 @@ fn spline_calls(ctx: &mut Ctx, r: &mut Rng) {
             }
         }
         let _ = no_panic(ctx, "PPSpline<Dual>::ppdnev_single_dual", guarded(|| sd.ppdnev_single_dual(&xd, r.usize(k + 2)).is_ok()), input);
+        {
+            // the Number mapping of the dual-valued splines, solved or not (an unsolved one must answer Err)
+            use rateslib::dual::NumberMapping;
+            let fresh = PPSpline::<Dual>::new(k, t.clone(), None);
+            let fresh2 = PPSpline::<Dual2>::new(k, t.clone(), None);
+            for x in [Number::F64(x0), Number::Dual(xd.clone()), Number::Dual2(xd2.clone())] {
+                let _ = no_panic(ctx, "PPSpline<Dual>::mapped_value", guarded(|| sd.mapped_value(&x).is_ok()), input);
+                if let Some(true) = no_panic(ctx, "PPSpline<Dual>::mapped_value(unsolved)", guarded(|| fresh.mapped_value(&x).is_ok()), input) {
+                    ctx.violation("C20|mapped_value|unsolved-spline-answered", json!({"input": input(), "spline": "PPSpline<Dual>"}));
+                }
+                if let Some(true) = no_panic(ctx, "PPSpline<Dual2>::mapped_value(unsolved)", guarded(|| fresh2.mapped_value(&x).is_ok()), input) {
+                    ctx.violation("C20|mapped_value|unsolved-spline-answered", json!({"input": input(), "spline": "PPSpline<Dual2>"}));
+                }
+            }
+        }
         let mut s2 = PPSpline::<Dual2>::new(k, t.clone(), None);
         let yd2: Vec<Dual2> = y.iter().enumerate().map(|(i, v)| Dual2::new(*v, vec![format!("y{}", i)])).collect();
         let _ = no_panic(ctx, "PPSpline<Dual2>::csolve", guarded(|| s2.csolve(&tau, &yd2, ln, rn, lsq).is_ok()), input);
